@@ -300,6 +300,7 @@ def outertrig(ctx):
     ("half-angle factor dropped", ("codegen", "        cp = f'(0.5 * ({str(a.e)} + ({str(normS)})**0.5)) ** 0.5'", "        cp = f'(({str(a.e)} + ({str(normS)})**0.5)) ** 0.5'")),
     ("the Study norm is written into the formula without brackets of its own", ("codegen", "        cp = f'(0.5 * ({str(a.e)} + ({str(normS)})**0.5)) ** 0.5'", "        cp = f'(0.5 * ({str(a.e)} + {str(normS)}**0.5)) ** 0.5'")),
     ("non-scalar part scaled by c instead of 1/(2c)", ("codegen", "    dI = bI * c2_inv", "    dI = bI * c")),
+    ("the norm is printed through a method only the default symbol class has", ("codegen", "({str(normS)})**0.5)) ** 0.5'", "({str(normS.tosympy())})**0.5)) ** 0.5'")),
 ])
 def sqrt_rule(ctx):
     """codegen_sqrt of a Study number a + bI emits c = sqrt((a + sqrt(a^2 - (bI)^2))/2), result c + bI/(2c);
@@ -363,6 +364,14 @@ def sqrt_rule(ctx):
     except NoValue as exc:
         raise Unknown(c, str(exc), fn)
     res = out[1] if out[0] == "return" else None
+    if out == ("raise", "AttributeError"):
+        # the coefficients of the symbolic operand are of the algebra's symbol class - RationalPolynomial by default, sympy.Symbol or a
+        # user's class with codegen_symbolcls: an attribute only RationalPolynomial has cannot be asked of them
+        rp_only = sorted({n.attr for n in ast.walk(fn) if isinstance(n, ast.Attribute) and n.attr in ("tosympy", "numer", "denom", "fromname")})
+        if rp_only:
+            ctx.violation(c, f"codegen_sqrt asks a coefficient for .{rp_only[0]}, which RationalPolynomial has and sympy expressions have not: with "
+                             f"codegen_symbolcls=sympy.Symbol the square root of a Study number raises AttributeError, the default algebra works", fn)
+            return
     if not (isinstance(res, Obj) and res.kind == "LambdifyInput"):
         raise Unknown(c, f"returns {out!r}", fn)
     a = T.opaque("grade", (x, 0))
